@@ -598,6 +598,57 @@ def literal_stream(ctx):
             ctx.validated()
 
 
+# ------------------------------------------------------------------ from-import of module attributes
+IMPORT_LIB = "{% macro hello() %}hi{% endmacro %}{% set pub = 'PUBLIC' %}{% set _priv = '" + ob.SENT + "9' %}{% macro _hidden() %}" + ob.SENT + "8{% endmacro %}"
+IMPORT_NAMES = ["pub", "hello", "_priv", "_hidden", "__class__", "__dict__", "_body_stream", "__module__", "__name__", "__init__",
+                "_TemplateModule__context", "__repr__", "__doc__"]
+IMPORT_FORMS = {
+    "from-as": '{%% from %(src)s import %(n)s as c %(ctx)s%%}{{ c }}',
+    "from-plain": '{%% from %(src)s import %(n)s %(ctx)s%%}{{ %(n)s }}',
+    "from-as-second": '{%% from %(src)s import pub, %(n)s as c %(ctx)s%%}{{ c }}',
+    "from-as-call": '{%% from %(src)s import %(n)s as c %(ctx)s%%}{{ c() }}',
+    "from-as-attr": '{%% from %(src)s import %(n)s as c %(ctx)s%%}{{ c.__name__ }}{{ c|list|length }}',
+    "import-dot": '{%% import %(src)s as m %(ctx)s%%}{{ m.%(n)s }}',
+    "import-subscript": "{%% import %(src)s as m %(ctx)s%%}{{ m['%(n)s'] }}",
+}
+
+
+def import_stream(ctx):
+    """module attributes reached by {% from X import N as alias %} (generated code: builtin getattr guarded only by
+    the parser) and {% import X as m %}{{ m.N }}: an underscore name is a compile-time error or behaves like a
+    missing name"""
+    from jinja2 import DictLoader
+    from jinja2.sandbox import ImmutableSandboxedEnvironment, SandboxedEnvironment
+    for cname, cls in (("sandboxed", SandboxedEnvironment), ("immutable", ImmutableSandboxedEnvironment)):
+        for mode in ("sync", "async"):
+            env = cls(loader=DictLoader({"lib": IMPORT_LIB}), enable_async=(mode == "async"))
+            cache = {}
+            lib_t = env.get_template("lib")
+            for form, n, src, wctx in itertools.product(IMPORT_FORMS, IMPORT_NAMES, ('"lib"', "t"), ("", "with context ")):
+                if ctx.tier != "thorough" and (cname, mode) in (("immutable", "sync"), ("sandboxed", "async")) and src == "t":
+                    continue
+                tmpl = IMPORT_FORMS[form] % {"src": src, "n": n, "ctx": wctx}
+                ctl = IMPORT_FORMS[form] % {"src": src, "n": "nosuchattr_zz", "ctx": wctx}
+                out = render_outcome(env, cache, tmpl, {"t": lib_t})
+                case = {"kind": "import", "env": cname, "mode": mode, "form": form, "name": n, "template": tmpl, "outcome": out[:160]}
+                unsafe = n.startswith("_")
+                ctx.case(sample=case if unsafe and form == "from-as" and len(ctx.samples) < 6 else None,
+                         key=("import", cname, mode, form, n, src, wctx) if unsafe else None)
+                ctx.count("import_" + form)
+                bad = None
+                if ob.SENT in out:
+                    bad = "the sentinel of an underscore name of the imported module appears in the output"
+                elif unsafe and out not in ("SecurityError", "exc:TemplateAssertionError"):
+                    ctl_out = render_outcome(env, cache, ctl, {"t": lib_t})
+                    if ctl_out.replace("nosuchattr_zz", n) != out:
+                        bad = (f"the underscore name {n!r} of the imported module is distinguishable from a missing name: "
+                               f"{out[:70]!r} vs {ctl_out[:50]!r}")
+                if bad:
+                    reject_once(ctx, case, f"{tmpl!r} ({cname}, {mode}): {bad}", f"C17:import:{form}:{n}")
+                else:
+                    ctx.validated()
+
+
 def make_render_envs():
     from jinja2.sandbox import SandboxedEnvironment
     return {"sync": (SandboxedEnvironment(), {}), "async": (SandboxedEnvironment(enable_async=True), {})}
@@ -642,6 +693,7 @@ def run(ctx):
 
 
     literal_stream(ctx)
+    import_stream(ctx)
     for path, mode in itertools.product(ob.HOST_FORMAT, ("sync", "async")):
         case = {"kind": "host-format", "path": path, "mode": mode}
         ok = judge_host_format(ctx, envs, case)
